@@ -132,11 +132,11 @@ CLAIMS = {
  "C13": dict(cat="proof", ref="DESIGN.md §5 C13",
    text="Theorems (Properties_C13.v, axiom-free): on the executable worker model (tied op by op to process.c/fossil.c), for every program, checkpoint interval and script: nothing queued or held "
         "lies below the announced GVT, histories are in timestamp order, and every processed message released by a fossil collection has a timestamp below the GVT — so no message that can still "
-        "arrive reaches into what was released (conditional on the model's error flag, which marks out-of-bounds indexing in the C code and is never raised in any run). Allocator level: fossil collection keeps the newest checkpoint not after the target and every later one, re-bases their references so the kept log starts at 0, "
+        "arrive reaches into what was released; the model's error flag (out-of-bounds indexing in the C code: a rollback or a collection that finds no checkpoint at or below its target, a cancellation notice that does not find its message) is PROVED never to be raised for every program with types below the reserved ones (C13_every_rollback_finds_a_kept_checkpoint), so these invariants hold in every reachable state. Allocator level: fossil collection keeps the newest checkpoint not after the target and every later one, re-bases their references so the kept log starts at 0, "
         "changes neither arenas nor size bookkeeping, and afterwards a restore to any index finds a checkpoint. Tie: allocator driver calling the real model_allocator_fossil_lp_collect/_checkpoint_restore "
         "with swept distances; LP-level driver and multi-thread runs with GVT periods down to 0: every entry released by a collection must lie strictly below the GVT it was given, and runs with "
         "rollbacks after fossil collections must still produce the reference digests.",
-   note=TB + "that the worker model never raises its error flag is not proved (needs uniqueness of message identities and the flag protocol); the GVT of the worker model is the minimum of everything pending, as drv_lp announces it (the multi-thread GVT protocol is C04's).",
+   note=TB + "the GVT of the worker model is the minimum of everything pending, as drv_lp announces it (the multi-thread GVT protocol is C04's).",
    tech="Coq proof (invariants of an executable model of process.c/fossil.c over all scripts: pending >= GVT, timestamp-ordered histories, released < GVT; log re-basing invariants) + op-by-op correspondence with the extracted worker model + allocator correspondence + trace oracle + rollback-after-fossil runs"),
  "C15": dict(cat="proof", ref="DESIGN.md §5 C15",
    text="Theorems (Properties_C15.v, axiom-free): heap_insert/heap_extract (list model of the heap.h macros) preserve the multiset of elements for any comparator, even one that changes "
@@ -167,13 +167,13 @@ CLAIMS = {
    text="Theorems (Properties_C06.v, axiom-free): flag-handshake transition system (sender cancel + deferred insertion; receiver extraction dispatching on the previous word, rollback with "
         "conditional re-insertion; releases) — for every interleaving the word determines where the message is, only 0,1,2,3,5 are observed, no step is enabled on a released buffer (no double free, "
         "no use after free), a release leaves the message nowhere, a never-cancelled message is released only as a committed entry; abstract exactly-once placement for all messages of all LPs "
-        "(C01 invariants); remote anti-messages match only their own message. Tie: every fetch-add result on every local message of cooperatively scheduled runs is replayed through the extracted "
-        "model and every release checked against it; free-running, LP-level (rollback storms) and 2..3-rank runs: release-twice oracle and final digests against the reference.",
+        "(C01 invariants); remote anti-messages match only their own message. On the executable worker model tied op by op to process.c (TW/Worker.v), for every program with types below the reserved ones, every checkpoint interval and EVERY script (C06_worker_exactly_once): no identity is pending, processed or marked twice, the flag word says where the message is (pending 0/1 and not processed | pending as the cancellation notice of a processed message, word 3, which is then really in its destination's history | processed, word 2), retained markers point to never-cancelled messages, every message is in the history of the LP it is addressed to, and the notice of a cancelled processed message always finds it (the error flag is never raised). Tie: every fetch-add result on every local message of cooperatively scheduled runs is replayed through the extracted "
+        "model and every release checked against it; op-by-op worker-model correspondence on LP-level scripts (the theorem's hypothesis types_okb is evaluated by the extracted model on every generated program); free-running, LP-level (rollback storms) and 2..3-rank runs: release-twice oracle and final digests against the reference.",
    note=TB + "SC atomics; hook-granularity atomicity; MPI modelled.",
    tech="Coq proof (invariant of the flag handshake over all interleavings) + exact replay of traced fetch-add results + multi-rank differential runs"),
  "C11": dict(cat="proof", ref="DESIGN.md §5 C11",
    text="PARTIAL by nature. Theorems (Properties_C11.v, axiom-free): safety side conditions of the modelled operations — every shift of Random() defined for all 2^64 raw outputs (pre-fix code refuted "
-        "at 1), no handshake step on a released buffer, malloc results in bounds and aligned, a restore after fossil collection always finds a checkpoint, partition loops bounded. Everything outside "
+        "at 1), no handshake step on a released buffer, malloc results in bounds and aligned, a restore after fossil collection always finds a checkpoint, partition loops bounded, and the index loops of process.c / fossil.c (match_anti_msg, checkpoint restore, fossil collection, LP array) stay in bounds for every program, checkpoint interval and script (the worker model's error flag is proved never raised). Everything outside "
         "the models is decided by running every driver (numerical library on crafted states, allocator sequences, serial / parallel / multi-rank / LP-level / cooperatively scheduled simulations with "
         "payloads > 32 bytes pending at shutdown, RootsimStop, statistics files) under ASan + UBSan.",
    note=TB + "sanitizers observe the executions run, not all executions; no race detection; code outside the models (stdio, MPI, arch/*) only through those runs.",
